@@ -1123,8 +1123,11 @@ class SpaceTimeVariogram:
             raise ValueError("axis can either be 'space' or 'time'.")
 
     def _get_member(self, xlag, tlag):
-        x_idxs = self._xgroups == xlag
-        t_idxs = self._tgroups == tlag
+        # differences and groups are calculated lazily
+        if self._diff is None:
+            self._calc_diff(force=False)
+        x_idxs = self.lag_groups(axis='space') == xlag
+        t_idxs = self.lag_groups(axis='time') == tlag
         return self._diff[np.where(x_idxs)[0]][:, np.where(t_idxs)[0]].flatten()
 
     # ------------------------------------------------------------------------ #
